@@ -78,6 +78,7 @@ type c16World struct {
 	others      int    // non-heartbeat frames interleaved
 	tcpPeers    int    // peers on one TCP server endpoint, all announcing the same ArduPilot (system 1, component 1)
 	timeouts    string // default | idle<=period | all-short: the node's timeout fields, which have nothing to do with heartbeats
+	rotate      int    // user dialects: how far the message list is rotated (0: heartbeat first)
 	neighbours  bool   // two ArduPilot senders (s,255) and (s+1,0) on one channel
 	manySenders int    // ArduPilot senders (distinct ids, channel 0) heard before everything else
 	busyApp     bool   // the application keeps the node busy with writes (to nobody) for a dozen periods
@@ -95,6 +96,14 @@ func (w *c16World) describe() string {
 func (w *c16World) dialect() *dialect.Dialect {
 	hb, rds := message.Message(&minimal.MessageHeartbeat{}), message.Message(&common.MessageRequestDataStream{})
 	extra := []message.Message{&common.MessageDebug{}, &common.MessageSysStatus{}}
+	// a dialect is a set of messages: where in the list the heartbeat stands is nobody's business
+	mk := func(first []message.Message) *dialect.Dialect {
+		msgs := append(first, extra...)
+		if k := w.rotate % len(msgs); k > 0 {
+			msgs = append(append([]message.Message{}, msgs[k:]...), msgs[:k]...)
+		}
+		return &dialect.Dialect{Version: w.version, Messages: msgs}
+	}
 	switch w.dialectKind {
 	case "common":
 		return common.Dialect
@@ -105,17 +114,17 @@ func (w *c16World) dialect() *dialect.Dialect {
 	case "nil":
 		return nil
 	case "user":
-		return &dialect.Dialect{Version: w.version, Messages: append([]message.Message{hb, rds}, extra...)}
+		return mk([]message.Message{hb, rds})
 	case "user-own-hb":
-		return &dialect.Dialect{Version: w.version, Messages: append([]message.Message{&MessageHeartbeat{}, rds}, extra...)}
+		return mk([]message.Message{&MessageHeartbeat{}, rds})
 	case "user-no-hb":
-		return &dialect.Dialect{Version: w.version, Messages: append([]message.Message{rds}, extra...)}
+		return mk([]message.Message{rds})
 	case "user-fake-hb":
-		return &dialect.Dialect{Version: w.version, Messages: append([]message.Message{&MessageNotHeartbeat{}, rds}, extra...)}
+		return mk([]message.Message{&MessageNotHeartbeat{}, rds})
 	case "user-no-rds":
-		return &dialect.Dialect{Version: w.version, Messages: append([]message.Message{hb}, extra...)}
+		return mk([]message.Message{hb})
 	case "user-fake-rds":
-		return &dialect.Dialect{Version: w.version, Messages: append([]message.Message{hb, &MessageNotRequestDataStream{}}, extra...)}
+		return mk([]message.Message{hb, &MessageNotRequestDataStream{}})
 	}
 	panic("BROKEN: dialect kind")
 }
@@ -143,6 +152,7 @@ func TestC16Automatic(t *testing.T) {
 		w := &c16World{}
 		w.dialectKind = rapid.SampledFrom([]string{"common", "common", "ardupilotmega", "ardupilotmega", "ardupilotmega", "minimal", "user", "user", "user", "user-own-hb", "user-own-hb", "user-no-hb", "user-fake-hb", "user-no-rds", "user-fake-rds", "nil"}).Draw(t, "dialect")
 		w.version = rapid.OneOf(rapid.Just(0), rapid.SampledFrom([]int{0, 1, 3, 255, 256, 300}), rapid.IntRange(0, 255)).Draw(t, "version")
+		w.rotate = rapid.IntRange(0, 3).Draw(t, "user_dialect_rotated_by")
 		w.hbEnabled = rapid.IntRange(0, 3).Draw(t, "hb") > 0
 		w.period = time.Duration(rapid.IntRange(20, 80).Draw(t, "period_ms")) * time.Millisecond
 		w.sysType = rapid.IntRange(1, 255).Draw(t, "systype")
